@@ -42,17 +42,25 @@ def _run_one(path):
 
 
 def evaluate(cases, mods, workdir, shard=400, jobs=None, tag='cases'):
-    """cases: list of (model_term:str, impl_res_term:str).  Returns (bad_index_list, diagnostics dict, errors)."""
+    """cases: list of (model_term, impl_res_term) [both of type res; compared with res_eqb], or of
+    ('bool', ok_term, show_term) where ok_term : bool and show_term : string.
+    Returns (bad_index_list, diagnostics dict, errors)."""
     os.makedirs(workdir, exist_ok=True)
     files = []
     for k in range(0, len(cases), shard):
         chunk = cases[k:k + shard]
         path = os.path.join(workdir, '%s_%d.v' % (tag, k // shard))
+        rows = []
+        for i, c in enumerate(chunk):
+            if c[0] == 'bool':
+                rows.append('(%d%%N, %s, %s)' % (k + i, c[1], c[2]))
+            else:
+                rows.append('(%d%%N, res_eqb %s %s, show_res %s)' % (k + i, c[0], c[1], c[0]))
         with open(path, 'w') as f:
             f.write(HEADER % {'mods': ' '.join(mods)})
-            f.write('Definition cases : list case := [\n')
-            f.write(';\n'.join('(%d%%N, %s, %s)' % (k + i, m, e) for i, (m, e) in enumerate(chunk)))
-            f.write('].\nEval vm_compute in (bad_ids cases).\nEval vm_compute in (show_bad cases).\n')
+            f.write('Definition cases : list (N * bool * string) := [\n')
+            f.write(';\n'.join(rows))
+            f.write('].\nEval vm_compute in (vbad_ids cases).\nEval vm_compute in (vshow_bad cases).\n')
         files.append(path)
     bad, diag, errors = [], {}, []
     with cf.ThreadPoolExecutor(max_workers=jobs or min(16, os.cpu_count() or 4)) as ex:
@@ -60,7 +68,6 @@ def evaluate(cases, mods, workdir, shard=400, jobs=None, tag='cases'):
             if err is not None:
                 errors.append({'file': path, 'error': err})
                 continue
-            parts = out.split('\n     = ')
             m = re.search(r'=\s*\[(.*?)\]\s*(%N)?\s*:\s*list N', out, re.S)
             if not m:
                 errors.append({'file': path, 'error': 'unparsable output: ' + out[:500]})
@@ -68,13 +75,9 @@ def evaluate(cases, mods, workdir, shard=400, jobs=None, tag='cases'):
             ids = [int(x) for x in re.findall(r'\d+', m.group(1))]
             bad.extend(ids)
             if ids:
-                # second answer: list (N * string); keep raw per id (best effort)
                 rest = out[m.end():]
                 for mm in re.finditer(r'\((\d+)%N,\s*"((?:[^"]|"")*)"', rest, re.S):
                     diag[int(mm.group(1))] = mm.group(2).replace('""', '"')
-    for f in files:
-        for ext in ('', 'o', 'ok', 'os'):
-            pass
     return sorted(bad), diag, errors
 
 
